@@ -2253,7 +2253,9 @@ class UpdateRisk(Algo):
 
         target.risk[self.measure] = risk
         if depth < self.history:
-            target.risks.loc[target.now, self.measure] = risk
+            # root.now: a security that is flat may not have been updated to
+            # the current date yet (see above)
+            target.risks.loc[target.root.now, self.measure] = risk
 
     def __call__(self, target):
         unit_risk_frame = target.get_data("unit_risk")[self.measure]
